@@ -77,6 +77,12 @@ impl Scratch {
 
     /// Empties and re-creates the directories (cheaper than a new one per case).
     pub fn reset(&self) {
+        // alias links may have been re-pointed by a case: they are made afresh on demand
+        use std::os::unix::ffi::OsStrExt;
+        for name in [std::ffi::OsStr::from_bytes(b"cache-\xff\xfe-link"), std::ffi::OsStr::new("link-to-cache"), std::ffi::OsStr::new("кэш 缓存 dir")] {
+            let _ = std::fs::remove_file(self.root.join(name));
+        }
+        let _ = std::fs::remove_dir_all(self.root.join("alias_sub"));
         let _ = std::fs::remove_dir_all(&self.cache);
         let _ = std::fs::remove_dir_all(&self.scratch);
         std::fs::create_dir_all(&self.cache).expect("create scratch cache dir");
